@@ -13,6 +13,20 @@ def E(cat, text, ref, note, tech, engine="tlc+vharness"):
 
 
 CLAIMED = {
+    "C01": E("model_checking",
+        "spec/Pipeline.tla is the outcome protocol of one request (Lex -> Parse -> Analyze -> Eval -> Manifest, exactly one "
+        "of value / structured error of the failing stage; no action for a panic, abort, internal assertion or timeout). "
+        "spec/MC_Pipeline.tla generates the inputs: all byte strings of length <= 3 (thorough 4) over 42 byte-class "
+        "representatives, every one of the 159 std functions (table frozen in the spec and cross-checked against "
+        "std.objectFieldsAll(std)) applied to every tuple of boundary values, and simulated mutation sequences of the "
+        "repository's own programs. Every input runs in an isolated worker (panic = data, abort/timeout attributed to the "
+        "case); TLC validates the recorded outcomes against Trace_Pipeline; a sample goes through the real binary (exit "
+        "status in {0,1,2}, no signal, no `panicked at`).",
+        "DESIGN.md §5 C01",
+        "Totality only (the spec does not predict which outcome); time-outs and allocator failure under the worker's "
+        "memory limit are resource exhaustion, counted outside the domain; deep-nesting native stack overflow in the "
+        "parser is a recorded known finding when it is re-found.",
+        "TLC-generated input universes + isolated replay + trace validation of the outcome protocol"),
     "C02": E("model_checking",
         "spec/Sem.tla is a big-step call-by-name reference semantics of the core language (locals, functions with "
         "default/named arguments, objects as layer sequences with self/super/$, visibility, +:, object locals and asserts, "
@@ -135,6 +149,18 @@ CLAIMED = {
         "DESIGN.md §5 C18",
         "Fractional arguments, empty separators and upstream-undocumented corners are outside the domain.",
         "TLC-checked string algebra + exhaustive replay"),
+    "C19": E("model_checking",
+        "spec/Fmt.tla: format-string parser, argument machines for the array / single-value / object forms and renderers "
+        "for d i u o x X c s %% exactly and e E f F on exact dyadic values (exact decimal expansion on base-10^7 limbs, "
+        "round-half-even), g/G as shape invariants; laws checked by TLC (field length = max(width, body), flag "
+        "interactions, aliases, form agreement, argument counting, parse/print identity, digit laws). Universe: conversions "
+        "x 32 flag subsets x widths x precisions x 41 values, huge widths/precisions (65535..70000) as ropes, malformed "
+        "strings, argument mismatches. The spec renderers are cross-validated against Python's % operator in the check "
+        "(mismatch = tool error).",
+        "DESIGN.md §5 C19",
+        "Digits of e/f/g for non-dyadic values and magnitudes >= 2^53 are compared by shape/one-ulp only; sign of -0 and "
+        "upstream-specific corners are outside the domain.",
+        "TLA+ printf model with TLC-checked laws + digit-exact replay"),
     "C20": E("model_checking",
         "spec/Codec.tla: radix parsers, an RFC 8259 decoder, base64, UTF-8 encode/lossy decode, the five escapers with "
         "their inverses, and a frozen digest table, each with TLC-checked laws; all strings <= 4/5 symbols over a JSON "
